@@ -271,9 +271,13 @@ func Gen(r *rand.Rand, p Profile) *Workload {
 				case 2:
 					pod.OwnerReferences = []metav1.OwnerReference{{APIVersion: "apps/v1", Kind: "ReplicaSet", Name: "rs", UID: "rs-uid", Controller: &t}}
 				}
+				terminating := w.Rnd.Intn(3) == 0
+				if terminating {
+					pod.Spec.NodeName = "node-gone" // bound to a node that no longer answers
+				}
 				if _, err := w.User.Kubernetes().CoreV1().Pods(obj.Namespace).Create(context.Background(), pod, metav1.CreateOptions{}); err == nil {
 					w.Mon.MarkForeign(obj.Namespace, obj.Name)
-					if w.Rnd.Intn(3) == 0 {
+					if terminating {
 						// the foreign Pod sits on a dead node: its deletion was requested but never completes
 						// (the simulated node only runs Pods of the job controller), it stays terminating
 						_ = w.User.Kubernetes().CoreV1().Pods(obj.Namespace).Delete(context.Background(), pod.Name, metav1.DeleteOptions{})
